@@ -278,6 +278,12 @@ def validate(ctx, hists, hdr, recs, tag="tv", nproc=6, timeout=900):
     return bad
 
 
+# a richer defect-free system used as a base of the exhaustive extensions: 3 constraints (one FATPIPE), 4 variables with
+# different weights, penalties and bounds
+RICH_BASE = [O("cnew", 10, 1, -1), O("cnew", 6, 1, -1), O("cnew", 8, 0, -1), O("vnew", 1, -1, 3), O("expand", 1, 1, 2),
+             O("expand", 2, 1, 2), O("vnew", 2, 3, 3), O("expand", 1, 2, 2), O("expand", 3, 2, 4), O("vnew", 1, -1, 2),
+             O("expand", 2, 3, 1), O("expand", 3, 3, 2), O("vnew", 1, 2, 2), O("expand", 1, 4, 3), O("solve")]
+
 # ------------------------------------------------------------------------------------------- regression histories
 # situations in which the pinned commit deviates (found by these checks; see KNOWN_FINDINGS.jsonl). Kept as permanent cases.
 REGRESSION = {
